@@ -88,11 +88,17 @@ func Issue(call *wasm.Call, p model.Pair, ops []model.Op) {
 		}
 		switch p.Policy {
 		case "set":
-			call.DoSet(op.Ord, op.Key, op.Bytes)
+			v := guestView(op.Bytes)
+			call.DoSet(op.Ord, op.Key, v)
+			poison(v)
 		case "set_if_not_exists":
-			call.DoSetIfNotExists(op.Ord, op.Key, op.Bytes)
+			v := guestView(op.Bytes)
+			call.DoSetIfNotExists(op.Ord, op.Key, v)
+			poison(v)
 		case "append":
-			call.DoAppend(op.Ord, op.Key, op.Bytes)
+			v := guestView(op.Bytes)
+			call.DoAppend(op.Ord, op.Key, v)
+			poison(v)
 		case "add":
 			switch p.VT {
 			case "int64":
@@ -284,4 +290,21 @@ func Local(tag string) (dstore.Store, func()) {
 		panic(err)
 	}
 	return ds, func() { os.RemoveAll(dir) }
+}
+
+
+// guestView / poison model how the wasm host functions receive byte arguments: as a VIEW of guest memory (wazero's
+// Memory.Read), which the guest reuses as soon as the call returns. The harness passes a private copy and overwrites it
+// right after the call, so an argument the store kept by reference instead of by value shows up as corrupted content.
+func guestView(b []byte) []byte {
+	if b == nil {
+		return nil
+	}
+	return append(make([]byte, 0, len(b)), b...)
+}
+
+func poison(b []byte) {
+	for i := range b {
+		b[i] = '?'
+	}
 }
